@@ -132,17 +132,23 @@ def run(ctx):
                     sigma_K0=sK0, P0=P0, P0_unit=P0u, generate_linear=gl)
         try:
             import thejoker.units as xu
+            s_kind = str(rng.choice(["const", "lognormal"], p=[.5, .5]))
+            s_mu, s_sd = float(rng.uniform(-2, 1)), float(rng.uniform(0.3, 1.2))
+            desc["jitter_prior"] = s_kind
             with pm.Model() as model:
                 offs = [xu.with_unit(pm.Normal("dv0_%d" % (k + 1), 1.0, 4.0), u.km / u.s) for k in range(noff)]
+                extra = {}
+                if s_kind == "lognormal":
+                    extra["pars"] = {"s": xu.with_unit(pm.LogNormal("s", s_mu, s_sd), u.km / u.s)}
                 prior = JokerPrior.default(P_min=gen.conv(Pmin_d, "d", pu) * gen.U(pu), P_max=gen.conv(Pmax_d, "d", pu) * gen.U(pu),
                                            sigma_K0=sK0 * gen.U(ku), P0=P0 * gen.U(P0u),
                                            sigma_v=[sv * u.km / u.s / u.day ** k for k, sv in enumerate(svs)],
-                                           poly_trend=poly, v0_offsets=offs or None, model=model)
+                                           poly_trend=poly, v0_offsets=offs or None, model=model, **extra)
             nd = ctx.n(20000, 100000)
             smp = prior.sample(size=nd, generate_linear=gl, return_logprobs=True, rng=np.random.default_rng([ctx.seed, ctx.shard, i]))
             Pd = np.asarray(smp["P"].to_value(u.day), dtype=float)
             ev = np.asarray(smp["e"], dtype=float)
-            cfgcls = (pu, poly, noff, gl, ku)
+            cfgcls = (pu, poly, noff, gl, ku, s_kind)
             # support
             ctx.evaluations += 1
             ctx.distinct.add(repr(("support",) + cfgcls))
@@ -157,6 +163,11 @@ def run(ctx):
                 if ang.max() - ang.min() > 2 * math.pi * (1 + 1e-9):
                     ctx.violation("draw-outside-support", "%s spans more than 2 pi" % nm, desc)
                 tests.append((nm, ang, stats.uniform(loc=-math.pi if ang.min() < 0 else 0.0, scale=2 * math.pi).cdf))
+            if s_kind == "lognormal":
+                sv_ = np.asarray(smp["s"].to_value(u.km / u.s), dtype=float)
+                if sv_.min() <= 0:
+                    ctx.violation("draw-outside-support", "sampled jitter <= 0", desc)
+                tests.append(("s", np.log(sv_), stats.norm(s_mu, s_sd).cdf))
             if gl:
                 Kv = np.asarray(smp["K"].to_value(gen.U(ku)), dtype=float)
                 P0d = gen.conv(P0, P0u, "d")
@@ -180,6 +191,8 @@ def run(ctx):
             lp = np.asarray(smp["ln_prior"], dtype=float)
             Pu_vals = np.asarray(smp["P"].value, dtype=float)          # density is declared in the prior's own unit
             ana = -np.log(Pu_vals) + stats.beta(0.867, 3.03).logpdf(ev)
+            if s_kind == "lognormal":
+                ana = ana + stats.lognorm(s=s_sd, scale=math.exp(s_mu)).logpdf(sv_)
             if gl:
                 ana = ana + stats.norm(0, sig).logpdf(Kv)
                 for k, sv in enumerate(svs):
